@@ -82,8 +82,11 @@ def run(ctx, chk):
                     and isinstance(n.value, ast.Name) and fi.cls is not None \
                     and n.value.id in (first, fi.cls.name):
                 oc, ex = fi.cls.find_class_attr(n.attr)
-                if ex is not None:
-                    readers.setdefault(("class", oc.name, n.attr), []).append((fi.qualname, loc))
+                owner = oc.name if ex is not None else fi.cls.name
+                readers.setdefault(("class", owner, n.attr), []).append((fi.qualname, loc))
+                for base in fi.cls.mro()[1:]:
+                    readers.setdefault(("class", base.name, n.attr), []).append(
+                        (fi.qualname, loc))
         # ---- mutated default-argument containers
         a = fi.node.args
         defaults = dict(zip([x.arg for x in (a.posonlyargs + a.args)][-len(a.defaults):] if
@@ -107,7 +110,9 @@ def run(ctx, chk):
         n_checked += 1
         wfuncs = sorted({w[0] for w in ws})
         if kind == "class":
-            rs = [r for r in readers.get(key, []) if r[0] not in wfuncs or True]
+            ci = ctx.types.class_by_name.get(owner)
+            shadowed = ci is not None and instance_assigned(ci, name)
+            rs = [] if shadowed else [r for r in readers.get(key, [])]
             rfuncs = sorted({r[0] for r in rs} - set(wfuncs))
             # instance-shadowed? (self.X = ... in the same class hierarchy shadows the class attr)
             construct = f"{owner}.{name}: class-level attribute written at run time"
@@ -235,10 +240,57 @@ def instance_assigned(ci, name):
 
 
 def dominated(repo, key, ws):
-    """every function that writes the location writes before it reads it in straight-line order,
-    and the write is a plain item store of a value that does not depend on the previous content"""
+    """a module-level container mutated at run time is harmless only if, in every function that
+    mutates it, the first use of the container (or of the local alias through which it is
+    mutated) is a plain item store - i.e. nothing left behind by an earlier call is read before it
+    is overwritten"""
+    kind, modname, name = key
     for fq, loc, how in ws:
         if how != "item store":
+            return False
+        fi = None
+        for f in repo.all_functions():
+            if f.qualname == fq and loc.startswith(f.module.path + ":"):
+                fi = f
+        if fi is None:
+            return False
+        names = {name}
+        for n in ast.walk(fi.node):
+            if isinstance(n, ast.Assign) and len(n.targets) == 1 \
+                    and isinstance(n.targets[0], ast.Name):
+                g = global_root(repo, fi, n.value, {})
+                if g == key:
+                    names.add(n.targets[0].id)
+        uses = []
+        for n in ast.walk(fi.node):
+            if isinstance(n, ast.Name) and n.id in names and isinstance(n.ctx, ast.Load):
+                uses.append(n)
+            if isinstance(n, ast.Attribute) and n.attr == name and isinstance(n.ctx, ast.Load):
+                uses.append(n)
+        if not uses:
+            return False
+        # parents to tell a store-target use from a read
+        parents = {}
+        for n in ast.walk(fi.node):
+            for c in ast.iter_child_nodes(n):
+                parents[c] = n
+        uses.sort(key=lambda n: (n.lineno, n.col_offset))
+        # skip the alias definition itself (x = CONTAINER[...])
+        for u in uses:
+            p = parents.get(u)
+            top = u
+            while isinstance(p, (ast.Subscript, ast.Attribute)) and p.value is top:
+                top, p = p, parents.get(p)
+            if isinstance(p, ast.Assign) and p.value is top and isinstance(p.targets[0], ast.Name) \
+                    and p.targets[0].id in names:
+                continue            # alias definition
+            is_store = isinstance(top, ast.Subscript) and isinstance(top.ctx, ast.Store)
+            if is_store:
+                break
+            # a membership test of the container does not read what an earlier call stored
+            if isinstance(p, ast.Compare) and top in p.comparators \
+                    and all(isinstance(o, (ast.In, ast.NotIn)) for o in p.ops):
+                continue
             return False
     return True
 
